@@ -26,7 +26,7 @@ ID = "C17"
 LEVEL = "model_checking"
 ENGINE = "E2 parse-history enumeration in forked pristine images + E4 preemption-bounded thread schedules"
 RULE = (
-    "E2: every sequence of <= D parses over a 25-text corpus, each sequence in a process forked from a pristine parent, every "
+    "E2: every sequence of <= D parses over a 26-text corpus, each sequence in a process forked from a pristine parent, every "
     "parse compared with the fresh-interpreter baseline of its text. E4: ordered pairs of corpus texts x {pristine, warm process image} "
     "x both start orders x EVERY switch point (preemption bound 1; thorough adds opcode granularity and bound 2 at call "
     "granularity); distinct = distinct history or distinct (pair, configuration, schedule); non-trivial = history of >= 2 parses "
@@ -70,6 +70,9 @@ CORPUS = {
     # whatever it is, it must stay inside THIS parse): exercises the early exits of the per-note helpers
     "open-mixed": (mk(res=12, sync=SYNC, events=EV, tracks={"ExpertSingle": T_S + ["20 = N 4 7", "20 = N 7 0"]}), None),
     "flag-only": (mk(res=12, sync=SYNC, events=EV, tracks={"ExpertSingle": T_S + ["20 = N 3 5", "24 = N 6 9", "24 = N 5 2"]}), None),
+    # the same lane line written twice in one tick (and three times, and a doubled flag): tables keyed by a SUM of
+    # per-line bits collide with other combinations ("single" has the plain red / green / open notes)
+    "dup-lane": (mk(res=12, sync=SYNC, events=EV, tracks={"ExpertSingle": ["0 = N 0 0", "0 = N 0 0", "4 = N 0 0", "4 = N 0 0", "4 = N 1 0", "8 = N 4 0", "8 = N 4 0", "12 = N 1 0", "12 = N 1 0", "12 = N 1 0", "16 = N 2 0", "16 = N 6 0", "16 = N 6 0"]}), None),
     # two resolutions (HOPO windows 64 and 160) and a track that starts with a tap note: per-track caches that
     # are reset on "the first note" in only one of the first-note branches
     "plain-192": (mk(res=192, sync=["0 = TS 4", "0 = B 120000"], events=EV, tracks={"ExpertSingle": ["0 = N 0 0", "64 = N 1 0", "130 = N 2 0"]}), None),
